@@ -252,7 +252,7 @@ def r5_r6_irrelevant(repo):
                         leaves = [(src(a), b) for a, b in flatten_guard(s2.test, True)]
                         rel = [l for l in leaves if l in (("%s.not_related(%s)" % (nm, et), False),
                                                           ("%s.not_related(%s)" % (et, nm), False))]
-                        rest = [l for l in leaves if l not in rel and l != ("%s is not None" % nm, True)
+                        rest = [l for l in leaves if l not in rel and l != ("%s is None" % nm, False)
                                 and l != (nm, True)]
                         if rel and not rest:
                             tested = True
